@@ -1,6 +1,8 @@
 // Correspondence harness for C13: generator stream vs the Lean model; reproducibility of the
 // simulators from their seed; conditioning at data; bounded Gaussian draws.
 #include "krig_common.hpp"
+#include "LithoRule/RuleProp.hpp"
+#include "LithoRule/Rule.hpp"
 #include "Basic/Law.hpp"
 #include "Simulation/CalcSimuTurningBands.hpp"
 #include "Simulation/CalcSimuFFT.hpp"
@@ -138,6 +140,78 @@ int main()
       delete neigh; delete dbin; delete dbout;
     }
     delete grid; delete model;
+  }
+
+  // ---- Gibbs sampler under inequality constraints and conditional plurigaussian simulation (one or two underlying
+  //      Gaussian fields, several simulations, part of the data masked by a selection)
+  for (long ic = 0; ic < (thorough() ? 400 : 30); ic++)
+  {
+    int ndim = 2;
+    defineDefaultSpace(ESpaceType::RN, ndim);
+    int nech = (int)rng.range(6, 14);
+    auto X = genPoints(rng, nech, ndim, 4);
+    bool useSel = rng.coin(0.6);
+    std::vector<int> sel(nech, 1); if (useSel) for (int i = 0; i < nech; i++) if (rng.coin(0.3)) sel[i] = 0;
+    { int na = 0; for (int v : sel) na += v; if (na < 4) { st.hit("regenerated"); continue; } }
+    // (a) Gibbs sampler: disjoint intervals, each sample has its own
+    {
+      std::vector<double> lo(nech), up(nech);
+      VectorDouble tab; VectorString names = {"x1", "x2", "lo", "up"}, locs = {"x1", "x2", "lower1", "upper1"};
+      if (useSel) { names.push_back("sel"); locs.push_back("sel"); }
+      for (int i = 0; i < nech; i++)
+      {
+        lo[i] = -2. + 0.25 * i + 0.0625 * rng.range(0, 2); up[i] = lo[i] + 0.0625 * rng.range(1, 2);
+        tab.push_back(X[i][0]); tab.push_back(X[i][1]); tab.push_back(lo[i]); tab.push_back(up[i]); if (useSel) tab.push_back((double)sel[i]);
+      }
+      Db* db = Db::createFromSamples(nech, ELoadBy::SAMPLE, tab, names, locs, false);
+      Model* m = Model::createFromParam(rng.coin() ? ECov::EXPONENTIAL : ECov::SPHERICAL, rng.dyadic(1, 4, 1), 1.);
+      int n0 = db->getColumnNumber(); int nbsimu = (int)rng.range(1, 3); int seed = (int)rng.range(1, 1000000);
+      bool multiMono = rng.coin();
+      std::string what = multiMono ? "gibbs_multi_mono" : "gibbs";
+      if (gibbs_sampler(db, m, nbsimu, seed, 5, 30, false, false, multiMono, false, false, 0, 5., false, false, false) == 0 && db->getColumnNumber() == n0 + nbsimu)
+      {
+        for (int i = 0; i < nech; i++) if (sel[i])
+        {
+          std::vector<double> v; for (int c = n0; c < db->getColumnNumber(); c++) v.push_back(db->getValueByColIdx(i, c));
+          printf("r inbounds %s %s %s =>\n", dy(lo[i]).c_str(), dy(up[i]).c_str(), vecD(v).c_str());
+        }
+        std::string h1 = hashCols(db, n0); dropCols(db, n0);
+        law_uniform();      // unrelated use of the generator
+        if (gibbs_sampler(db, m, nbsimu, seed, 5, 30, false, false, multiMono, false, false, 0, 5., false, false, false) == 0)
+        { printf("r same %s %s %s =>\n", what.c_str(), h1.c_str(), hashCols(db, n0).c_str()); dropCols(db, n0); }
+        st.hit(what + (useSel ? "_with_selection" : ""));
+      }
+      else st.hit("gibbs_refused");
+      delete db; delete m;
+    }
+    // (b) conditional plurigaussian simulation: the facies simulated at a target lying on a datum is the datum
+    {
+      int nfac = 3;
+      std::vector<std::vector<double>> F(1, std::vector<double>(nech));
+      for (int i = 0; i < nech; i++) F[0][i] = (double)rng.range(1, nfac);
+      Db* dbin = makeDb(X, ndim, F, {}, {}, useSel ? sel : std::vector<int>());
+      auto X0 = X; auto ex = genPoints(rng, 3, ndim, 4); for (auto& q : ex) { q[0] += 0.125; X0.push_back(q); }
+      Db* dbout = makeDb(X0, ndim, {}, {}, {}, {});
+      bool two = rng.coin();
+      Model* m1 = Model::createFromParam(ECov::EXPONENTIAL, rng.dyadic(1, 4, 1), 1.);
+      Model* m2 = two ? Model::createFromParam(ECov::SPHERICAL, rng.dyadic(1, 4, 1), 1.) : nullptr;
+      Rule* rule = two ? Rule::createFromNames({"S", "T", "F1", "F2", "F3"}) : Rule::createFromNames({"S", "S", "F1", "F2", "F3"});
+      RuleProp* rp = rule ? RuleProp::createFromRule(rule, {0.3, 0.4, 0.3}) : nullptr;
+      ANeigh* nu = NeighUnique::create();
+      int n0 = dbout->getColumnNumber(); int nbsimu = (int)rng.range(1, 3); int seed = (int)rng.range(1, 1000000);
+      if (rp != nullptr && simpgs(dbin, dbout, rp, m1, m2, nu, nbsimu, seed) == 0 && dbout->getColumnNumber() == n0 + nbsimu)
+      {
+        for (int i = 0; i < nech; i++) if (sel[i]) for (int c = n0; c < dbout->getColumnNumber(); c++)
+          printf("r atdata %s %s %s =>\n", dy(F[0][i]).c_str(), dy(dbout->getValueByColIdx(i, c)).c_str(), dy(1.).c_str());
+        std::string h1 = hashCols(dbout, n0); dropCols(dbout, n0);
+        Db* dbin2 = makeDb(X, ndim, F, {}, {}, useSel ? sel : std::vector<int>());
+        if (simpgs(dbin2, dbout, rp, m1, m2, nu, nbsimu, seed) == 0) { printf("r same simpgs-conditional %s %s =>\n", h1.c_str(), hashCols(dbout, n0).c_str()); dropCols(dbout, n0); }
+        delete dbin2;
+        st.hit(std::string("simpgs_conditional_") + (two ? "two_grf" : "one_grf") + (useSel ? "_with_selection" : ""));
+      }
+      else st.hit("simpgs_refused");
+      delete nu; delete rp; delete rule; delete m1; delete m2; delete dbin; delete dbout;
+    }
   }
   st.dump(stdout);
   return 0;
